@@ -37,3 +37,23 @@ package dtls
 //@   atcall AcceptWithContext before: assert @C16 @C02: defined(psk) && arg2 != nil && arg2.PSK == psk && arg1 == ctxCancel
 //@   cancellable @C16: ctxCancel
 //@   checks structure
+
+// ---------------- C01: destination port (DTLS) ----------------
+// Same rule on both sides: the default port unless the parameters ask for randomisation, and then the port IS the
+// seeded draw over this transport's range - unmodified: the client computes the same draw and has no way to learn of
+// an adjustment made on the station.
+//@ func (t Transport) GetDstPort(libVersion uint, seed []byte, params any) (uint16, error)
+//@   atcall PortSelectorRange before: assert @C01: arg0 == portRangeMin && arg1 == portRangeMax && arg2 == seed
+//@   atcall PortSelectorRange after: snap sel := res0
+//@   atcall PortSelectorRange after: snap selErr := res1
+//@   ensures @C01: params == nil ==> result0 == defaultPort && result1 == nil
+//@   ensures @C01: defined(sel) ==> result0 == sel && result1 == selErr
+//@   ensures @C01: !defined(sel) && result1 == nil ==> result0 == defaultPort
+//@   ensures @C01: typeis(params, *pb.DTLSTransportParams) && unboxptr(params, *pb.DTLSTransportParams) != nil && unboxptr(params, *pb.DTLSTransportParams).RandomizeDstPort != nil && *unboxptr(params, *pb.DTLSTransportParams).RandomizeDstPort ==> defined(sel)
+//@ func (t *ClientTransport) GetDstPort(seed []byte) (uint16, error)
+//@   requires t != nil
+//@   atcall PortSelectorRange before: assert @C01: arg0 == portRangeMin && arg1 == portRangeMax && arg2 == seed
+//@   atcall PortSelectorRange after: snap sel := res0
+//@   atcall PortSelectorRange after: snap selErr := res1
+//@   ensures @C01: old(t.sessionParams == nil || t.sessionParams.RandomizeDstPort == nil || !*t.sessionParams.RandomizeDstPort) ==> result0 == defaultPort && result1 == nil
+//@   ensures @C01: old(t.sessionParams != nil && t.sessionParams.RandomizeDstPort != nil && *t.sessionParams.RandomizeDstPort) ==> defined(sel) && result0 == sel && result1 == selErr
